@@ -115,6 +115,11 @@ class SdRunner(ScenarioRunner):
             if settings:
                 if scenario_manager in settings:
                     if scenario in settings[scenario_manager]:
+                        if step > sc.sd_simulation.mod.starttime:
+                            # the stocks of this step only depend on the previous step, which ran with the previous settings.
+                            # Evaluate them first: whatever they need and has not been evaluated yet would otherwise be computed with the new settings
+                            for stock_name in sc.sd_simulation.mod.stocks:
+                                sc.sd_simulation.mod.equation(stock_name, step)
                         if "constants" in settings[scenario_manager][scenario]:
                             constants = settings[scenario_manager][scenario]["constants"]
                             for name, value in constants.items():
